@@ -41,7 +41,8 @@ RULE = ("a case = (scenario, set|multiset, key kind, layout, routing, buffer, po
         "keeps TWO containers of the same type alive on the communicator with interleaved operations (a third with equal shares), each judged "
         "against its own contents; a quarter of the multi-rank cases run the same scenario, through the same template instantiations, on a "
         "sub-communicator (MPI_Comm_split of the world by local id: last-vs-rest or parity) AND on the world communicator of one process, in "
-        "either order, and both runs (every sub-communicator group and the world) are judged with the same oracles / model comparison")
+        "either order, and both runs (every sub-communicator group and the world) are judged with the same oracles / model comparison; "
+        "in 40 % of the scenarios some ranks call comm.stats_reset() between operations and after barriers (set / multiset have no copy constructor)")
 
 
 class SetFlavour(E.MapFlavour):
